@@ -2,7 +2,10 @@
 from .. import tsprops as T
 
 LEVEL = 'proof'
-NEEDS = ['SFExtend', 'Extracted', 'SourceFacts', 'Base', 'Digraph', 'TSGraph', 'TSGraphProofs', 'MinimalProofs', 'ExtendProofs', 'StationaryProofs', 'SummaryProofs', 'CorrTS']
+NEEDS = ['PyRtTSb', 'PyRtTSbLemmas', 'TSGenExtend', 'TSGenExtendProofs', 'CorrTSGenExtend', 'SFExtend', 'Extracted', 'SourceFacts', 'Base', 'Digraph', 'TSGraph', 'TSGraphProofs', 'MinimalProofs', 'ExtendProofs', 'StationaryProofs', 'SummaryProofs', 'CorrTS']
+# the code translated from the source on every run: when the translator REFUSES the current source the run falls back to the
+# hand-written model and its correspondence (harness/main.py)
+GEN_SOFT = dict(generated=['TSGenExtend'], modules=['PyRtTSb', 'PyRtTSbLemmas', 'TSGenExtend', 'TSGenExtendProofs', 'CorrTSGenExtend'])
 DESCRIBE = {
     'C14': 'get_minimal_graph / is_minimal_graph / adjacency_matrices compared with the model; the characterisation c14_check (proved equivalent to the membership statement) evaluated by Coq on the graph the implementation returned.',
     'C15': 'extend_graph over a grid of (backward_steps, forward_steps, include_all_parents) incl. None, 0 and negative values; c15_check evaluated on every returned graph.',
